@@ -304,7 +304,7 @@ Proof.
     + destruct (r_fields r) as [rfs| | |]; cbn [rbind lift]; try reflexivity.
       rewrite (rfields_ok (rdec f we re o) (rval f we re o) (skip f we) rfs wfs ls).
       * destruct (vfields (rval f we re o) rfs wfs (map erase ls) []) as [record| | |]; cbn [lift rbind]; try reflexivity.
-        destruct (finish_record rfs record) as [v| | |]; cbn [rbind]; try reflexivity.
+        destruct (finish_record re rfs record) as [v| | |]; cbn [rbind]; try reflexivity.
       * eapply Forall2_impl'; [|exact Hs]. intros fd la Hla. split.
         -- intros R0 x0. apply IH; assumption.
         -- intros x0. rewrite skip_is_dec, (wire_l_dec n we (ftype fd) la Hla f Hf' x0). reflexivity.
@@ -315,13 +315,12 @@ Proof.
     apply typedl_ref in Hs. destruct Hs as (s0 & Hlk & Hl). rewrite Hlk.
     replace (match erase l with
              | ANull | _ => match lookup we nm with
-                            | Some w' => let+ R'' := reader_by_name re R' in rval f we re o w' R'' (erase l)
+                            | Some w' => rval f we re o w' R' (erase l)
                             | None => RErrOther end end)
-      with (let+ R'' := reader_by_name re R' in rval f we re o s0 R'' (erase l))
+      with (rval f we re o s0 R' (erase l))
       by (rewrite Hlk; destruct (erase l); reflexivity).
-    destruct (reader_by_name re R') as [R''| | |]; cbn [rbind lift]; try reflexivity.
-    rewrite (IH we s0 l Hl f Hf' re o R'' x).
-    destruct (rval f we re o s0 R'' (erase l)); reflexivity.
+    rewrite (IH we s0 l Hl f Hf' re o R' x).
+    destruct (rval f we re o s0 R' (erase l)); reflexivity.
 Qed.
 
 (** the writer's own encoding *)
@@ -750,691 +749,3 @@ Qed.
 
 
 
-(* ------------------------------------------------------------------------------------------ *)
-(** * Part D: inside the agreement zone the code's value-level algorithm IS the specification
-      (schemas without by-name references and without annotations) *)
-
-Lemma inline_deref e s : inline s = true -> deref e s = s.
-Proof. destruct s; cbn [inline]; try discriminate; reflexivity. Qed.
-
-(** *** positions instead of schemas: which branch is picked *)
-Lemma find_find_idx {A} (P : A -> bool) l :
-  find P l = match find_idx P l with Some k => nth_error l k | None => None end.
-Proof.
-  induction l as [|x l IH]; cbn [find find_idx]; [reflexivity|].
-  destruct (P x); [reflexivity|]. rewrite IH. destruct (find_idx P l); reflexivity.
-Qed.
-
-Lemma find_idx_some {A} (P : A -> bool) l k : find_idx P l = Some k -> exists x, nth_error l k = Some x /\ P x = true.
-Proof.
-  revert k. induction l as [|x l IH]; intros k H; cbn [find_idx] in H; [discriminate|].
-  destruct (P x) eqn:E.
-  - injection H as <-. exists x. split; [reflexivity|exact E].
-  - destruct (find_idx P l) as [k'|]; [|discriminate]. injection H as <-. apply IH. reflexivity.
-Qed.
-
-Lemma pick_branch_idx we re w rbs :
-  pick_branch we re w rbs = match spec_idx we re w rbs with Some k => nth_error rbs k | None => None end.
-Proof.
-  unfold pick_branch, spec_idx. rewrite !find_find_idx.
-  destruct (find_idx (same_named we re w) rbs) as [k|] eqn:E0.
-  - destruct (find_idx_some _ _ _ E0) as (x & -> & _). reflexivity.
-  - destruct (find_idx (smatch we re false w) rbs) as [k|] eqn:E1.
-    + destruct (find_idx_some _ _ _ E1) as (x & -> & _). reflexivity.
-    + reflexivity.
-Qed.
-
-Lemma first_branch_nth mt bs :
-  first_branch mt bs = (let+ k := first_branch_idx mt bs in
-                        match nth_error bs k with Some b => ROk b | None => RErrOther end).
-Proof.
-  induction bs as [|b bs IH]; cbn [first_branch first_branch_idx]; [reflexivity|].
-  destruct (mt b) as [x| | |]; cbn [rbind]; try reflexivity. destruct x; [reflexivity|].
-  rewrite IH. destruct (first_branch_idx mt bs); reflexivity.
-Qed.
-
-(** *** match_top on two non-union schemas either rejects or hands back the reader schema *)
-Lemma check_match_inv b ok x : check_match b ok = ROk x -> x = ok /\ b = ROk true.
-Proof.
-  unfold check_match. destruct b as [t| | |]; cbn [rbind]; try discriminate. destruct t; [|discriminate].
-  intros H; injection H as <-. split; reflexivity.
-Qed.
-
-Lemma mfuel_S w : mfuel w = S (2 * amdepth w + 7).
-Proof. unfold mfuel. lia. Qed.
-
-Lemma match_top_nonunion we re w r x :
-  inline w = true -> inline r = true -> is_union w = false -> is_union r = false ->
-  match_top we re w r = ROk x -> x = r.
-Proof.
-  intros Hi Hir Hw Hr. unfold match_top. rewrite mfuel_S. generalize (2 * amdepth w + 7)%nat as f. intros f.
-  destruct w; try discriminate Hi; try discriminate Hw;
-    destruct r; try discriminate Hr; try discriminate Hir;
-    cbn [match_schemas is_list strip tag_of in_named_types in_avro_types name_of aliases_of andb negb match_names tag_eqb promotable];
-    intros H;
-    repeat match type of H with context [if ?c then _ else _] => destruct c end;
-    try discriminate H; try (injection H as <-; reflexivity);
-    try (apply check_match_inv in H; destruct H as [-> _]; reflexivity).
-Qed.
-
-
-
-(** *** a rejected pair is a resolution error of the specification *)
-Lemma resolve_reject we re n w r a :
-  inline w = true -> inline r = true -> is_union w = false -> is_union r = false ->
-  typedn (S n) we w a -> smatch we re true w r = false -> resolve we re w r a = RErrResolution.
-Proof.
-  intros Hw Hr Huw Hur Ht Hm.
-  destruct w; try discriminate Hw; try discriminate Huw;
-    destruct a; cbn [typedn] in Ht; try contradiction;
-    destruct r; try discriminate Hr; try discriminate Hur;
-    cbn [smatch deref Read.resolve strip named_match prim_match] in Hm; try discriminate Hm;
-    cbn [resolve]; cbv zeta; cbn [deref Read.resolve strip reader_side]; try reflexivity;
-    rewrite ?Hm; try reflexivity.
-Qed.
-
-Lemma typed_fits we n w a : inline w = true -> is_union w = false -> typedn (S n) we w a -> fits w a = true.
-Proof.
-  intros Hw Hu Ht. destruct w; try discriminate Hw; try discriminate Hu; destruct a; cbn [typedn] in Ht; try contradiction; reflexivity.
-Qed.
-
-(** *** keys of the record under construction *)
-Definition keys_inv (record : list (pyval * pyval)) (ks : list str) : Prop := map fst record = map PStr ks.
-
-Lemma bytes_eqb_sym a : forall b, bytes_eqb a b = bytes_eqb b a.
-Proof. induction a as [|x a IH]; intros [|y b]; cbn [bytes_eqb]; try reflexivity. rewrite Z.eqb_sym, IH. reflexivity. Qed.
-
-Lemma dict_set_keys record : forall ks k v, keys_inv record ks -> keys_inv (dict_set record k v) (kadd ks k).
-Proof.
-  unfold keys_inv, kadd.
-  induction record as [|[k0 v0] record IH]; intros ks k v H; destruct ks as [|s ks]; cbn [map fst] in H; try discriminate.
-  - reflexivity.
-  - injection H as -> H. cbn [dict_set mem existsb]. unfold mem in *.
-    rewrite (bytes_eqb_sym k s). destruct (bytes_eqb s k) eqn:E; cbn [orb map fst].
-    + rewrite H. reflexivity.
-    + specialize (IH ks k v H). destruct (existsb (bytes_eqb k) ks); cbn [map app] in *; rewrite IH; reflexivity.
-Qed.
-
-Lemma keys_get record : forall ks n, keys_inv record ks -> (dict_get record n <> None <-> mem n ks = true).
-Proof.
-  unfold keys_inv, mem.
-  induction record as [|[k0 v0] record IH]; intros ks n H; destruct ks as [|s ks]; cbn [map fst] in H; try discriminate.
-  - cbn. split; [intros []; reflexivity|discriminate].
-  - injection H as -> H. cbn [dict_get existsb]. rewrite (bytes_eqb_sym n s).
-    destruct (bytes_eqb s n); cbn [orb]; [split; [reflexivity|discriminate]|]. apply IH. exact H.
-Qed.
-
-Lemma keys_len record ks : keys_inv record ks -> len record = len ks.
-Proof. unfold keys_inv, len. intros H. rewrite <- (map_length fst record), H, map_length. reflexivity. Qed.
-
-Lemma vfields_keys rec rfs : forall wfs l record ks record',
-  keys_inv record ks -> vfields rec rfs wfs l record = ROk record' -> keys_inv record' (rec_keys rfs wfs ks).
-Proof.
-  induction wfs as [|wf wfs IH]; intros l record ks record' Hk H; destruct l as [|x l]; cbn [vfields rec_keys] in *; try discriminate.
-  - injection H as <-. exact Hk.
-  - destruct (reader_field rfs (fname wf)) as [rf|].
-    + destruct (rec (ftype wf) (Some (ftype rf)) x) as [v| | |]; cbn [rbind] in H; try discriminate.
-      eapply IH; [|exact H]. apply dict_set_keys. exact Hk.
-    + eapply IH; [exact Hk|exact H].
-Qed.
-
-(** *** defaults that need no conversion *)
-Lemma simple_default_gen f re s d : inline s = true -> simple_default s d = true -> default_value (S (S f)) re s d = ROk d.
-Proof.
-  intros Hi Hs.
-  destruct s; try discriminate Hi; cbn [simple_default] in Hs.
-  13:{ destruct bs as [|b bs]; [discriminate|]. apply andb_prop in Hs. destruct Hs as [Hu Hs].
-       cbn [inline forallb] in Hi. apply andb_prop in Hi. destruct Hi as [Hi _]. apply andb_prop in Hi. destruct Hi as [_ Hi].
-       remember (S f) as f1. cbn [default_value deref Read.resolve strip]. subst f1.
-       destruct b; try discriminate Hi; try discriminate Hu; destruct d; try discriminate Hs;
-         try (destruct l; try discriminate Hs); try (destruct kv; try discriminate Hs); reflexivity. }
-  all: destruct d; try discriminate Hs; try (destruct l; try discriminate Hs); try (destruct kv; try discriminate Hs); reflexivity.
-Qed.
-
-Lemma simple_default_ok re s d : inline s = true -> simple_default s d = true -> default_value DFUEL re s d = ROk d.
-Proof. exact (simple_default_gen 38 re s d). Qed.
-
-Lemma fill_spec re tbl : forall record,
-  forallb (fun e : str * field => match fdefault (snd e) with
-                     | Some d => inline (ftype (snd e)) && simple_default (ftype (snd e)) d
-                     | None => true end) tbl = true ->
-  fill_defaults tbl record = spec_defaults re tbl record.
-Proof.
-  induction tbl as [|[n fd] tbl IH]; intros record H; cbn [fill_defaults spec_defaults forallb snd] in *; [reflexivity|].
-  apply andb_prop in H. destruct H as [H1 H2].
-  destruct (dict_get record n); [apply IH; exact H2|].
-  destruct (fdefault fd) as [d|]; [|reflexivity].
-  apply andb_prop in H1. destruct H1 as [Hi Hs]. rewrite (simple_default_ok re _ _ Hi Hs). cbn [rbind]. apply IH. exact H2.
-Qed.
-
-Lemma finish_eq re rfs wfs record :
-  keys_inv record (rec_keys rfs wfs []) -> defaults_simple rfs = true -> guard_ok rfs wfs = true ->
-  finish_record rfs record = (let+ r := spec_defaults re (field_table rfs) record in ROk (PDict r)).
-Proof.
-  intros Hk Hd Hg. unfold finish_record. rewrite (fill_spec re _ record Hd).
-  destruct (len (field_table rfs) >? len record) eqn:G; [reflexivity|].
-  unfold guard_ok in Hg. rewrite <- (keys_len _ _ Hk), G in Hg. cbn [orb] in Hg.
-  rewrite spec_defaults_all_present; [reflexivity|].
-  apply Forall_forall. intros e He. apply (keys_get _ _ _ Hk).
-  rewrite forallb_forall in Hg. apply Hg. exact He.
-Qed.
-
-
-
-(** *** one step of [rval] *)
-Definition rbody (f : nat) (we re : env) (o : ropts) (w : schema) (R' : option schema) (a : aval) : rres pyval :=
-    let+ v :=
-      match strip w, a with
-      | SRef n, _ =>
-          match lookup we n with
-          | None => RErrOther
-          | Some w' => let+ R'' := reader_by_name re R' in rval f we re o w' R'' a
-          end
-      | SArray wi, AArray l =>
-          let item a := match truthy R' with
-                        | Some r => let+ ri := r_items r in rval f we re o wi (Some ri) a
-                        | None => rval f we re o wi None a
-                        end in
-          let+ l := vitems item l in ROk (PList l)
-      | SMap wv, AMap l =>
-          let item a := match truthy R' with
-                        | Some r => let+ rv := r_values r in rval f we re o wv (Some rv) a
-                        | None => rval f we re o wv None a
-                        end in
-          let+ l := vmap_items item l in ROk (PDict (dict_of_items l))
-      | SUnion wbs, AUnion i x =>
-          match nthZ wbs i with
-          | None => RErrOther
-          | Some wb =>
-              let+ (rb, idx_reader) := union_reader we re wb R' in
-              let+ v := rval f we re o wb rb x in
-              wrap_union_r o we re wbs wb idx_reader v
-          end
-      | SRecord _ _ wfs, ARecord l =>
-          match R' with
-          | None => let+ record := vfields_plain (rval f we re o) wfs l [] in ROk (PDict record)
-          | Some r =>
-              let+ rfs := r_fields r in
-              let+ record := vfields (rval f we re o) rfs wfs l [] in
-              finish_record rfs record
-          end
-      | SEnum _ _ syms _, AEnum i =>
-          match nthZ syms i with
-          | None => RErrOther
-          | Some sym => enum_symbol R' sym
-          end
-      | SAnnot _ _, _ => RErrOther
-      | (SArray _ | SMap _ | SUnion _ | SRecord _ _ _ | SEnum _ _ _ _), _ => RErrOther
-      | s, a => leaf_py s a
-      end in
-    match strip w with
-    | SRef _ => ROk v
-    | _ => promote_with (tag_of w) R' v
-    end.
-
-Lemma rval_S f we re o w R a :
-  rval (S f) we re o w R a = (let+ R' := matched we re w R in rbody f we re o w R' a).
-Proof. reflexivity. Qed.
-
-(** the part of [agree] about what follows once a non-union writer schema meets the reader schema [b] *)
-Definition sub_ok (we re : env) (w b : schema) : bool :=
-  match w, b with
-  | SInt, SFloat | SLong, SFloat => false
-  | SEnum _ _ _ _, SEnum _ _ _ (Some []) => false
-  | SArray wi, SArray ri => agree we re wi ri
-  | SMap wv, SMap rv => agree we re wv rv
-  | SRecord _ _ wfs, SRecord _ _ rfs =>
-      forallb (fun wf => match reader_field rfs (fname wf) with
-                         | Some rf => agree we re (ftype wf) (ftype rf)
-                         | None => true end) wfs
-      && defaults_simple rfs && guard_ok rfs wfs
-  | _, _ => true
-  end.
-
-Lemma agree_nonunion we re w r : is_union w = false ->
-  agree we re w r =
-  truthy_ok r &&
-  match r with
-  | SUnion rbs =>
-      pick_ok (first_branch_idx (match_types (pred (mfuel w)) we re w) rbs) (spec_idx we re w rbs)
-              (fun k => match nth_error rbs k with Some b => smatch we re true w b && sub_ok we re w b | None => false end)
-  | _ => accept_ok we re w r && (if smatch we re true w r then sub_ok we re w r else true)
-  end.
-Proof. intros H. destruct w; try discriminate H; reflexivity. Qed.
-
-Lemma agree_union we re wbs r :
-  agree we re (SUnion wbs) r =
-  truthy_ok r &&
-  forallb (fun wb =>
-        match r with
-        | SUnion rbs =>
-            pick_ok (first_branch_idx (match_types_top we re wb) rbs) (spec_idx we re wb rbs)
-                    (fun k => match nth_error rbs k with Some b => agree we re wb b | None => false end)
-        | _ => match match_types_top we re wb r with
-               | ROk t => Bool.eqb t (smatch we re true wb r) && (if t then agree we re wb r else true)
-               | _ => false
-               end
-        end) wbs.
-Proof. reflexivity. Qed.
-
-(** the reader field found for a name is one of the reader's fields *)
-Lemma tbl_set_vals {A} (P : A -> Prop) (d : list (str * A)) k v :
-  Forall (fun e => P (snd e)) d -> P v -> Forall (fun e => P (snd e)) (tbl_set d k v).
-Proof.
-  intros Hd Hv. induction Hd as [|[k' v'] d Hx Hd IH]; cbn [tbl_set]; [constructor; [exact Hv|constructor]|].
-  destruct (bytes_eqb k' k); constructor; try assumption.
-Qed.
-
-Lemma tbl_get_vals {A} (P : A -> Prop) (d : list (str * A)) k v :
-  Forall (fun e => P (snd e)) d -> tbl_get d k = Some v -> P v.
-Proof.
-  induction 1 as [|[k' v'] d Hx Hd IH]; cbn [tbl_get]; [discriminate|].
-  destruct (bytes_eqb k' k); [intros H; injection H as <-; exact Hx|exact IH].
-Qed.
-
-Lemma reader_field_in rfs k rf : reader_field rfs k = Some rf -> In rf rfs.
-Proof.
-  unfold reader_field.
-  assert (H1 : Forall (fun e : str * field => In (snd e) rfs) (field_table rfs)).
-  { unfold field_table.
-    assert (G : forall l acc, incl l rfs -> Forall (fun e : str * field => In (snd e) rfs) acc ->
-                Forall (fun e : str * field => In (snd e) rfs) (fold_left (fun d f => tbl_set d (fname f) f) l acc)).
-    { induction l as [|f l IH]; intros acc Hl Ha; cbn [fold_left]; [exact Ha|].
-      apply IH; [intros x Hx; apply Hl; right; exact Hx|]. apply (tbl_set_vals (fun x : field => In x rfs)); [exact Ha|apply Hl; left; reflexivity]. }
-    apply G; [apply incl_refl|constructor]. }
-  assert (H2 : Forall (fun e : str * field => In (snd e) rfs) (alias_table rfs)).
-  { unfold alias_table.
-    assert (G : forall l acc, incl l rfs -> Forall (fun e : str * field => In (snd e) rfs) acc ->
-                Forall (fun e : str * field => In (snd e) rfs)
-                  (fold_left (fun d f => fold_left (fun d a => tbl_set d a f) (faliases f) d) l acc)).
-    { induction l as [|f l IH]; intros acc Hl Ha; cbn [fold_left]; [exact Ha|].
-      apply IH; [intros x Hx; apply Hl; right; exact Hx|].
-      assert (Hf : In f rfs) by (apply Hl; left; reflexivity).
-      generalize (faliases f). intros als. revert acc Ha. induction als as [|a als IHa]; intros acc Ha; cbn [fold_left]; [exact Ha|].
-      apply IHa. apply (tbl_set_vals (fun x : field => In x rfs)); assumption. }
-    apply G; [apply incl_refl|constructor]. }
-  destruct (tbl_get (field_table rfs) k) as [f|] eqn:E.
-  - intros H; injection H as <-. exact (tbl_get_vals (fun x : field => In x rfs) _ _ _ H1 E).
-  - intros H. exact (tbl_get_vals (fun x : field => In x rfs) _ _ _ H2 H).
-Qed.
-
-Lemma wrap_union_r0 we re bs b rb v : wrap_union_r ropts0 we re bs b rb v = ROk v.
-Proof. reflexivity. Qed.
-
-Section Body.
-  Variable n : nat.
-  Hypothesis IH : forall we w a, typedn n we w a -> forall re r f, (n <= f)%nat ->
-    inline w = true -> inline r = true -> agree we re w r = true ->
-    rval f we re ropts0 w (Some r) a = resolve we re w r a.
-
-  Lemma items_agree we re wi ri f l : (n <= f)%nat -> inline wi = true -> inline ri = true -> agree we re wi ri = true ->
-    Forall (typedn n we wi) l ->
-    vitems (fun a => rval f we re ropts0 wi (Some ri) a) l = res_items (resolve we re) wi ri l.
-  Proof.
-    intros Hf Hw Hr Ha. induction 1 as [|x l Hx _ IHl]; cbn [vitems res_items]; [reflexivity|].
-    rewrite (IH we wi x Hx re ri f Hf Hw Hr Ha), IHl. reflexivity.
-  Qed.
-
-  Lemma entries_agree we re wv rv f (l : list (bytes * aval)) : (n <= f)%nat -> inline wv = true -> inline rv = true ->
-    agree we re wv rv = true ->
-    Forall (fun kv => key_ok (fst kv) /\ typedn n we wv (snd kv)) l ->
-    vmap_items (fun a => rval f we re ropts0 wv (Some rv) a) l = res_entries (resolve we re) wv rv l.
-  Proof.
-    intros Hf Hw Hr Ha. induction 1 as [|[k x] l [_ Hx] _ IHl]; cbn [vmap_items res_entries]; [reflexivity|].
-    cbn [snd] in Hx. rewrite (IH we wv x Hx re rv f Hf Hw Hr Ha), IHl. reflexivity.
-  Qed.
-
-  Lemma fields_agree we re rfs f : (n <= f)%nat -> forallb (fun rf : field => inline (ftype rf)) rfs = true ->
-    forall wfs l acc, Forall2 (fun fd a => typedn n we (ftype fd) a) wfs l ->
-    forallb (fun wf : field => inline (ftype wf)) wfs = true ->
-    forallb (fun wf => match reader_field rfs (fname wf) with
-                       | Some rf => agree we re (ftype wf) (ftype rf)
-                       | None => true end) wfs = true ->
-    vfields (rval f we re ropts0) rfs wfs l acc = res_fields (resolve we re) rfs wfs l acc.
-  Proof.
-    intros Hf Hrfs wfs l acc H. revert acc. induction H as [|wf x wfs l Hx _ IHl]; intros acc Hi Ha; cbn [vfields res_fields]; [reflexivity|].
-    cbn [forallb] in Hi, Ha. apply andb_prop in Hi. destruct Hi as [Hi1 Hi2]. apply andb_prop in Ha. destruct Ha as [Ha1 Ha2].
-    destruct (reader_field rfs (fname wf)) as [rf|] eqn:E.
-    - assert (Hrf : inline (ftype rf) = true).
-      { rewrite forallb_forall in Hrfs. apply Hrfs. eapply reader_field_in. exact E. }
-      rewrite (IH we (ftype wf) x Hx re (ftype rf) f Hf Hi1 Hrf Ha1).
-      destruct (resolve we re (ftype wf) (ftype rf) x); cbn [rbind]; try reflexivity. apply IHl; assumption.
-    - apply IHl; assumption.
-  Qed.
-
-  Lemma body_agree we re w b a f : typedn (S n) we w a -> (n <= f)%nat ->
-    inline w = true -> inline b = true -> is_union w = false -> is_union b = false ->
-    smatch we re true w b = true -> sub_ok we re w b = true ->
-    rbody f we re ropts0 w (Some b) a = resolve we re w b a.
-  Proof.
-    intros Ht Hf Hw Hb Huw Hub Hm Hs.
-    destruct w; try discriminate Hw; try discriminate Huw; destruct a; cbn [typedn] in Ht; try contradiction;
-      destruct b; try discriminate Hb; try discriminate Hub;
-      cbn [smatch deref Read.resolve strip named_match prim_match] in Hm; try discriminate Hm;
-      cbn [sub_ok] in Hs; try discriminate Hs; try reflexivity.
-    - (* fixed *)
-      cbn [resolve]; cbv zeta; cbn [deref Read.resolve strip reader_side]. rewrite Hm. reflexivity.
-    - (* enum *)
-      cbn [resolve]; cbv zeta; cbn [deref Read.resolve strip reader_side]. rewrite Hm.
-      unfold rbody. cbn [strip]. destruct (nthZ syms i) as [sym|]; [|reflexivity].
-      unfold enum_symbol. cbn [truthy is_dict is_list is_str negb andb strip].
-      destruct (mem sym syms0); [reflexivity|]. destruct dflt0 as [[|c d]|]; try discriminate Hs; reflexivity.
-    - (* array *)
-      destruct Ht as [_ Hl]. cbn [inline] in Hw, Hb.
-      cbn [resolve]; cbv zeta; cbn [deref Read.resolve strip reader_side]. rewrite Hm.
-      unfold rbody. cbn [strip truthy r_items is_dict is_list is_str negb andb rbind].
-      rewrite (items_agree we re w b f l Hf Hw Hb Hs Hl).
-      destruct (res_items (resolve we re) w b l); reflexivity.
-    - (* map *)
-      destruct Ht as [_ Hl]. cbn [inline] in Hw, Hb.
-      cbn [resolve]; cbv zeta; cbn [deref Read.resolve strip reader_side]. rewrite Hm.
-      unfold rbody. cbn [strip truthy r_values is_dict is_list is_str negb andb rbind].
-      rewrite (entries_agree we re w b f l Hf Hw Hb Hs Hl).
-      destruct (res_entries (resolve we re) w b l); reflexivity.
-    - (* record *)
-      cbn [inline] in Hw, Hb. apply andb_prop in Hs. destruct Hs as [Hs Hg]. apply andb_prop in Hs. destruct Hs as [Hs Hd].
-      cbn [resolve]; cbv zeta; cbn [deref Read.resolve strip reader_side]. rewrite Hm.
-      unfold rbody. cbn [strip r_fields is_dict is_list is_str negb andb rbind].
-      rewrite (fields_agree we re fs0 f Hf Hb fs l [] Ht Hw Hs).
-      destruct (res_fields (resolve we re) fs0 fs l []) as [record| | |] eqn:E; cbn [rbind]; try reflexivity.
-      assert (Hk : keys_inv record (rec_keys fs0 fs [])).
-      { rewrite <- (fields_agree we re fs0 f Hf Hb fs l [] Ht Hw Hs) in E. eapply vfields_keys; [|exact E]. reflexivity. }
-      rewrite (finish_eq re fs0 fs record Hk Hd Hg).
-      destruct (spec_defaults re (field_table fs0) record); reflexivity.
-  Qed.
-End Body.
-
-
-
-Lemma nthZ_In {A} (l : list A) : forall i x, nthZ l i = Some x -> In x l.
-Proof.
-  induction l as [|a l IH]; intros i x H; cbn [nthZ] in H; [discriminate|].
-  destruct (i =? 0); [injection H as <-; left; reflexivity|]. destruct (i <? 0); [discriminate|]. right. eapply IH. exact H.
-Qed.
-
-Lemma truthy_some r : truthy_ok r = true -> truthy (Some r) = Some r.
-Proof. destruct r; try reflexivity. destruct bs; [discriminate|reflexivity]. Qed.
-
-Lemma reader_side_union we re w rbs k b :
-  spec_idx we re w rbs = Some k -> nth_error rbs k = Some b -> inline b = true -> is_union b = false ->
-  reader_side we re w (SUnion rbs) = Some b.
-Proof.
-  intros Hk Hn Hi Hu. unfold reader_side. cbn [deref Read.resolve strip]. rewrite pick_branch_idx, Hk, Hn.
-  rewrite (inline_deref re b Hi). destruct b; try discriminate Hu; reflexivity.
-Qed.
-
-Lemma reader_side_plain we re w b : inline b = true -> is_union b = false -> reader_side we re w b = Some b.
-Proof. intros Hi Hu. unfold reader_side. rewrite (inline_deref re b Hi). destruct b; try discriminate Hu; reflexivity. Qed.
-
-Lemma inline_branch rbs k b : inline (SUnion rbs) = true -> nth_error rbs k = Some b -> inline b = true /\ is_union b = false.
-Proof.
-  cbn [inline]. intros H Hn. rewrite forallb_forall in H. specialize (H b (nth_error_In _ _ Hn)).
-  apply andb_prop in H. destruct H as [H1 H2]. split; [exact H2|]. destruct (is_union b); [discriminate|reflexivity].
-Qed.
-
-Lemma union_reader_plain we re wb r : is_union r = false ->
-  union_reader we re wb (Some r) = (let+ x := match_types_top we re wb r in if x then ROk (Some r, None) else RErrResolution).
-Proof. intros H. destruct r; try discriminate H; reflexivity. Qed.
-
-Lemma union_reader_union we re wb rbs : truthy_ok (SUnion rbs) = true ->
-  union_reader we re wb (Some (SUnion rbs)) = (let+ b := first_branch (match_types_top we re wb) rbs in ROk (Some b, Some b)).
-Proof. intros H. destruct rbs; [discriminate H|reflexivity]. Qed.
-
-Theorem rval_resolve : forall n we w a, typedn n we w a -> forall re r f, (n <= f)%nat ->
-  inline w = true -> inline r = true -> agree we re w r = true ->
-  rval f we re ropts0 w (Some r) a = resolve we re w r a.
-Proof.
-  induction n as [|n IH]; intros we w a Ht re r f Hf Hw Hr Ha; [destruct Ht|].
-  destruct f as [|f]; [lia|]. assert (Hf' : (n <= f)%nat) by lia.
-  rewrite rval_S.
-  destruct (is_union w) eqn:Hu.
-  - (* the writer schema is a union *)
-    destruct w as [| | | | | | | | | | | |wbs| | |]; try discriminate Hu.
-    destruct a; cbn [typedn] in Ht; try contradiction. destruct Ht as (_ & wb & Hn & Hx).
-    rewrite agree_union in Ha. apply andb_prop in Ha. destruct Ha as [Htr Ha].
-    unfold matched. rewrite (truthy_some r Htr). unfold match_top. rewrite mfuel_S. cbn [match_schemas is_list rbind].
-    unfold rbody. cbn [strip]. rewrite Hn.
-    assert (Hin : In wb wbs) by (eapply nthZ_In; exact Hn).
-    cbn [inline] in Hw. rewrite forallb_forall in Hw. specialize (Hw wb Hin). apply andb_prop in Hw. destruct Hw as [Hwu Hwi].
-    assert (Hwu' : is_union wb = false) by (destruct (is_union wb); [discriminate|reflexivity]).
-    rewrite forallb_forall in Ha. specialize (Ha wb Hin).
-    destruct n as [|m]; [destruct Hx|].
-    assert (Hres : resolve we re (SUnion wbs) r (AUnion i a) = resolve we re wb r a).
-    { cbn [resolve]; cbv zeta. cbn [deref Read.resolve strip]. rewrite Hn. reflexivity. }
-    rewrite Hres.
-    destruct (is_union r) eqn:Hur.
-    + (* reader union *)
-      destruct r as [| | | | | | | | | | | |rbs| | |]; try discriminate Hur.
-      rewrite (union_reader_union we re wb rbs Htr), first_branch_nth. unfold pick_ok in Ha.
-      destruct (first_branch_idx (match_types_top we re wb) rbs) as [k| | |]; destruct (spec_idx we re wb rbs) as [k'|] eqn:Hk;
-        try discriminate Ha; cbn [rbind].
-      * apply andb_prop in Ha. destruct Ha as [Hkk Hab]. apply Nat.eqb_eq in Hkk. subst k'.
-        destruct (nth_error rbs k) as [b|] eqn:Hnth; [|discriminate Hab].
-        destruct (inline_branch rbs k b Hr Hnth) as [Hbi Hbu]. cbn [rbind].
-        rewrite (IH we wb a Hx re b f Hf' Hwi Hbi Hab).
-        rewrite (resolve_reader_side we re wb (SUnion rbs) b a).
-        -- destruct (resolve we re wb b a); reflexivity.
-        -- rewrite (inline_deref we wb Hwi). exact Hwu'.
-        -- rewrite (inline_deref we wb Hwi), (reader_side_union we re wb rbs k b Hk Hnth Hbi Hbu), (reader_side_plain we re wb b Hbi Hbu). reflexivity.
-      * symmetry. apply (error_no_branch we re wb (SUnion rbs) a rbs).
-        -- rewrite (inline_deref we wb Hwi). exact Hwu'.
-        -- rewrite (inline_deref we wb Hwi). eapply typed_fits; eassumption.
-        -- reflexivity.
-        -- rewrite (inline_deref we wb Hwi), pick_branch_idx, Hk. reflexivity.
-    + (* reader not a union *)
-      assert (Ha2 : match match_types_top we re wb r with
-                    | ROk t => Bool.eqb t (smatch we re true wb r) && (if t then agree we re wb r else true)
-                    | _ => false end = true) by (destruct r; try discriminate Hur; exact Ha).
-      clear Ha. rename Ha2 into Ha.
-      destruct (match_types_top we re wb r) as [t| | |] eqn:Hmt; try discriminate Ha.
-      apply andb_prop in Ha. destruct Ha as [Ht Hab]. apply eqb_prop in Ht.
-      rewrite (union_reader_plain we re wb r Hur), Hmt. cbn [rbind]. destruct t.
-      * cbn [rbind]. rewrite (IH we wb a Hx re r f Hf' Hwi Hr Hab). destruct (resolve we re wb r a); reflexivity.
-      * cbn [rbind]. symmetry. eapply resolve_reject; try eassumption. symmetry. exact Ht.
-  - (* the writer schema is not a union *)
-    rewrite (agree_nonunion we re w r Hu) in Ha. apply andb_prop in Ha. destruct Ha as [Htr Ha].
-    unfold matched. rewrite (truthy_some r Htr).
-    destruct (is_union r) eqn:Hur.
-    + destruct r as [| | | | | | | | | | | |rbs| | |]; try discriminate Hur.
-      assert (Hmt : match_top we re w (SUnion rbs) = first_branch (match_types (pred (mfuel w)) we re w) rbs).
-      { unfold match_top. rewrite mfuel_S. cbn [match_schemas pred]. destruct w; try discriminate Hu; reflexivity. }
-      rewrite Hmt, first_branch_nth. unfold pick_ok in Ha.
-      destruct (first_branch_idx (match_types (pred (mfuel w)) we re w) rbs) as [k| | |]; destruct (spec_idx we re w rbs) as [k'|] eqn:Hk;
-        try discriminate Ha; cbn [rbind].
-      * apply andb_prop in Ha. destruct Ha as [Hkk Hab]. apply Nat.eqb_eq in Hkk. subst k'.
-        destruct (nth_error rbs k) as [b|] eqn:Hnth; [|discriminate Hab].
-        apply andb_prop in Hab. destruct Hab as [Hm Hs].
-        destruct (inline_branch rbs k b Hr Hnth) as [Hbi Hbu]. cbn [rbind].
-        rewrite (body_agree n IH we re w b a f Ht Hf' Hw Hbi Hu Hbu Hm Hs).
-        symmetry. apply resolve_reader_side.
-        -- rewrite (inline_deref we w Hw). exact Hu.
-        -- rewrite (inline_deref we w Hw), (reader_side_union we re w rbs k b Hk Hnth Hbi Hbu), (reader_side_plain we re w b Hbi Hbu). reflexivity.
-      * symmetry. apply (error_no_branch we re w (SUnion rbs) a rbs).
-        -- rewrite (inline_deref we w Hw). exact Hu.
-        -- rewrite (inline_deref we w Hw). eapply typed_fits; eassumption.
-        -- reflexivity.
-        -- rewrite (inline_deref we w Hw), pick_branch_idx, Hk. reflexivity.
-    + assert (Ha' : accept_ok we re w r && (if smatch we re true w r then sub_ok we re w r else true) = true)
-        by (destruct r; try discriminate Hur; exact Ha).
-      clear Ha. apply andb_prop in Ha'. destruct Ha' as [Hacc Hs]. unfold accept_ok in Hacc.
-      destruct (match_top we re w r) as [x| | |] eqn:Hmt; try discriminate Hacc; cbn [rbind].
-      * rewrite Hacc in Hs. rewrite (match_top_nonunion we re w r x Hw Hr Hu Hur Hmt).
-        apply (body_agree n IH we re w r a f Ht Hf' Hw Hr Hu Hur Hacc Hs).
-      * symmetry. eapply resolve_reject; try eassumption. destruct (smatch we re true w r); [discriminate|reflexivity].
-Qed.
-
-(** reading with a reader schema = decode, then the SPECIFICATION, inside the agreement zone *)
-Theorem rdec_resolve_zone : forall n we w l, typedl n we w l ->
-  forall re r f x, (n <= f)%nat -> typedn n we w (erase l) ->
-  inline w = true -> inline r = true -> agree we re w r = true ->
-  rdec f we re ropts0 w (Some r) (wire_l l ++ x) = lift x (resolve we re w r (erase l)).
-Proof.
-  intros n we w l Hl re r f x Hf Ht Hw Hr Ha.
-  rewrite (rdec_rval n we w l Hl f Hf re ropts0 (Some r) x).
-  rewrite (rval_resolve n we w (erase l) Ht re r f Hf Hw Hr Ha). reflexivity.
-Qed.
-
-Theorem rdec_resolve_zone_wire : forall n we w a, typedn n we w a ->
-  forall re r f x, (n <= f)%nat -> inline w = true -> inline r = true -> agree we re w r = true ->
-  rdec f we re ropts0 w (Some r) (wire a ++ x) = lift x (resolve we re w r a).
-Proof.
-  intros n we w a Ht re r f x Hf Hw Hr Ha.
-  rewrite (rdec_rval_wire n we w a Ht f Hf re ropts0 (Some r) x).
-  rewrite (rval_resolve n we w a Ht re r f Hf Hw Hr Ha). reflexivity.
-Qed.
-
-(** reader == writer through the code, inside the zone: what reading without a reader schema returns *)
-Theorem rdec_identity_zone : forall n e s a, typedn n e s a -> wf_ident n e s ->
-  inline s = true -> agree e e s s = true ->
-  forall f x, (n <= f)%nat ->
-  exists v, py_of ropts0 e s a = Some v /\ rdec f e e ropts0 s (Some s) (wire a ++ x) = ROk (v, x).
-Proof.
-  intros n e s a Ht Hwf Hi Ha f x Hf. destruct (resolve_identity n e s a Ht Hwf) as (v & H1 & H2).
-  exists v. split; [exact H1|]. rewrite (rdec_resolve_zone_wire n e s a Ht e s f x Hf Hi Hi Ha), H2. reflexivity.
-Qed.
-
-From Coq Require Import String.
-Open Scope string_scope. Open Scope Z_scope.
-(* ------------------------------------------------------------------------------------------ *)
-(** * Part E: where the code leaves the specification (concrete witnesses, by computation) *)
-
-Ltac typed_tac :=
-  repeat first
-    [ exact I
-    | progress cbn [typedn ftype fst snd nthZ lookup bytes_eqb s2b]
-    | split
-    | apply Forall_nil | apply Forall_cons | apply Forall2_nil | apply Forall2_cons
-    | (eexists; split; [reflexivity|])
-    | progress (unfold in_int32, in_int64, is_byte, bytes_ok, key_ok, len; cbn [length])
-    | lia
-    | reflexivity ].
-
-Definition fld (n : str) (s : schema) : field := mkField n s None [].
-Definition fldd (n : str) (s : schema) (d : pyval) : field := mkField n s (Some d) [].
-
-(** F6: writer "bytes", reader ["string","bytes"]: first PROMOTABLE branch instead of the branch of the same type *)
-Definition f6_r := SUnion [SString; SBytes].
-Definition f6_a := ABytes [97; 98; 99].
-Lemma refuted_F6 :
-  typedn 1 [] SBytes f6_a /\
-  rdec 3 [] [] ropts0 SBytes (Some f6_r) (wire f6_a) = ROk (PStr [97; 98; 99], []) /\
-  resolve [] [] SBytes f6_r f6_a = ROk (PBytes [97; 98; 99]).
-Proof. split; [typed_tac|split; vm_compute; reflexivity]. Qed.
-
-(** F7: the writer defines fixed F at field x and refers to it at y; the reader the other way round *)
-Definition F4 := SFixed (s2b "F") [] 4.
-Definition f7_w := SRecord (s2b "R") [] [fld (s2b "x") F4; fld (s2b "y") (SRef (s2b "F"))].
-Definition f7_r := SRecord (s2b "R") [] [fld (s2b "y") F4; fld (s2b "x") (SRef (s2b "F"))].
-Definition f7_we : env := [(s2b "R", f7_w); (s2b "F", F4)].
-Definition f7_re : env := [(s2b "R", f7_r); (s2b "F", F4)].
-Definition f7_a := ARecord [AFixed [1; 2; 3; 4]; AFixed [5; 6; 7; 8]].
-Lemma refuted_F7 :
-  typedn 3 f7_we f7_w f7_a /\
-  rdec 5 f7_we f7_re ropts0 f7_w (Some f7_r) (wire f7_a) = RErrResolution /\
-  resolve f7_we f7_re f7_w f7_r f7_a
-  = ROk (PDict [(PStr (s2b "x"), PBytes [1; 2; 3; 4]); (PStr (s2b "y"), PBytes [5; 6; 7; 8])]).
-Proof. split; [typed_tac|split; vm_compute; reflexivity]. Qed.
-
-(** the writer refers to enum E by name where the reader has a union with the inline definition: TypeError *)
-Definition EAB := SEnum (s2b "E") [] [s2b "A"; s2b "B"] None.
-Definition g1_w := SRecord (s2b "R") [] [fld (s2b "x") EAB; fld (s2b "y") (SRef (s2b "E"))].
-Definition g1_r := SRecord (s2b "R") [] [fld (s2b "y") (SUnion [SNull; EAB])].
-Definition g1_we : env := [(s2b "R", g1_w); (s2b "E", EAB)].
-Definition g1_re : env := [(s2b "R", g1_r); (s2b "E", EAB)].
-Definition g1_a := ARecord [AEnum 0; AEnum 1].
-Lemma refuted_ref_vs_union_inline :
-  typedn 3 g1_we g1_w g1_a /\
-  rdec 5 g1_we g1_re ropts0 g1_w (Some g1_r) (wire g1_a) = RErrOther /\
-  resolve g1_we g1_re g1_w g1_r g1_a = ROk (PDict [(PStr (s2b "y"), PStr (s2b "B"))]).
-Proof. split; [typed_tac|split; vm_compute; reflexivity]. Qed.
-
-(** the kind of a named type is not compared: record against enum of the same name is a KeyError,
-    fixed against record of the same name returns the bytes *)
-Definition g2_w := SRecord (s2b "R") [] [fld (s2b "x") SInt].
-Definition g2_r := SEnum (s2b "R") [] [s2b "A"] None.
-Lemma refuted_kind_record_enum :
-  typedn 2 [(s2b "R", g2_w)] g2_w (ARecord [AInt 1]) /\
-  rdec 5 [(s2b "R", g2_w)] [(s2b "R", g2_r)] ropts0 g2_w (Some g2_r) (wire (ARecord [AInt 1])) = RErrOther /\
-  resolve [(s2b "R", g2_w)] [(s2b "R", g2_r)] g2_w g2_r (ARecord [AInt 1]) = RErrResolution.
-Proof. split; [typed_tac|split; vm_compute; reflexivity]. Qed.
-
-Definition g2b_r := SRecord (s2b "F") [] [].
-Lemma refuted_kind_fixed_record :
-  typedn 1 [(s2b "F", F4)] F4 (AFixed [1; 2; 3; 4]) /\
-  rdec 5 [(s2b "F", F4)] [(s2b "F", g2b_r)] ropts0 F4 (Some g2b_r) (wire (AFixed [1; 2; 3; 4])) = ROk (PBytes [1; 2; 3; 4], []) /\
-  resolve [(s2b "F", F4)] [(s2b "F", g2b_r)] F4 g2b_r (AFixed [1; 2; 3; 4]) = RErrResolution.
-Proof. split; [typed_tac|split; vm_compute; reflexivity]. Qed.
-
-(** the JSON default of a reader-only bytes field is returned as the str it is written as in JSON *)
-Definition g3_w := SRecord (s2b "R") [] [fld (s2b "x") SInt].
-Definition g3_r := SRecord (s2b "R") [] [fld (s2b "x") SInt; fldd (s2b "b") SBytes (PStr [195; 191])].
-Lemma refuted_default_bytes :
-  typedn 2 [(s2b "R", g3_w)] g3_w (ARecord [AInt 1]) /\
-  rdec 5 [(s2b "R", g3_w)] [(s2b "R", g3_r)] ropts0 g3_w (Some g3_r) (wire (ARecord [AInt 1]))
-  = ROk (PDict [(PStr (s2b "x"), PInt 1); (PStr (s2b "b"), PStr [195; 191])], []) /\
-  resolve [(s2b "R", g3_w)] [(s2b "R", g3_r)] g3_w g3_r (ARecord [AInt 1])
-  = ROk (PDict [(PStr (s2b "x"), PInt 1); (PStr (s2b "b"), PBytes [255])]).
-Proof. split; [typed_tac|split; vm_compute; reflexivity]. Qed.
-
-(** int -> float is float(data): 16777217 is not a binary32 value *)
-Lemma refuted_int_to_float :
-  typedn 1 [] SInt (AInt 16777217) /\
-  rdec 3 [] [] ropts0 SInt (Some SFloat) (wire (AInt 16777217)) = ROk (PFloat 4715268810125344768, []) /\
-  resolve [] [] SInt SFloat (AInt 16777217) = ROk (PFloat 4715268809856909312).
-Proof. split; [typed_tac|split; vm_compute; reflexivity]. Qed.
-
-(** reader == writer: a union of two records with the same unqualified name *)
-Definition g5_a := SRecord (s2b "a.R") [] [fld (s2b "x") SInt].
-Definition g5_b := SRecord (s2b "b.R") [] [fld (s2b "y") SString].
-Definition g5_u := SUnion [g5_a; g5_b].
-Definition g5_e : env := [(s2b "a.R", g5_a); (s2b "b.R", g5_b)].
-Definition g5_v := AUnion 1 (ARecord [AString [104; 105]]).
-Lemma refuted_identity_same_unqualified_name :
-  typedn 3 g5_e g5_u g5_v /\
-  rdec 5 g5_e g5_e ropts0 g5_u (Some g5_u) (wire g5_v) = RErrResolution /\
-  resolve g5_e g5_e g5_u g5_u g5_v = ROk (PDict [(PStr (s2b "y"), PStr [104; 105])]) /\
-  py_of ropts0 g5_e g5_u g5_v = Some (PDict [(PStr (s2b "y"), PStr [104; 105])]).
-Proof. split; [typed_tac|split; [|split]; vm_compute; reflexivity]. Qed.
-
-(** two by-name references are matched by their names alone: fixed F of size 4 against F of size 5, empty array *)
-Definition F5 := SFixed (s2b "F") [] 5.
-Definition g6_w := SRecord (s2b "R") [] [fld (s2b "u") (SUnion [SNull; F4]); fld (s2b "xs") (SArray (SRef (s2b "F")))].
-Definition g6_r := SRecord (s2b "R") [] [fld (s2b "u") (SUnion [SNull; F5]); fld (s2b "xs") (SArray (SRef (s2b "F")))].
-Definition g6_a := ARecord [AUnion 0 ANull; AArray []].
-Lemma refuted_refs_by_name_only :
-  typedn 3 [(s2b "R", g6_w); (s2b "F", F4)] g6_w g6_a /\
-  rdec 5 [(s2b "R", g6_w); (s2b "F", F4)] [(s2b "R", g6_r); (s2b "F", F5)] ropts0 g6_w (Some g6_r) (wire g6_a)
-  = ROk (PDict [(PStr (s2b "u"), PNone); (PStr (s2b "xs"), PList [])], []) /\
-  resolve [(s2b "R", g6_w); (s2b "F", F4)] [(s2b "R", g6_r); (s2b "F", F5)] g6_w g6_r g6_a = RErrResolution.
-Proof. split; [typed_tac|split; vm_compute; reflexivity]. Qed.
-
-(** *** a non-trivial pair on which code and specification agree: fields reordered, one renamed with an alias and
-        promoted string -> bytes, one reader-only field with a default, int -> double, a writer-only array field
-        ahead of the retained ones (skipped: the stream stays aligned), trailing bytes left on the stream *)
-Definition ex_w := SRecord (s2b "R") []
-  [fld (s2b "a") (SArray SString); fld (s2b "b") SInt; fld (s2b "c") SString].
-Definition ex_r := SRecord (s2b "ns.R") []
-  [mkField (s2b "c2") SBytes None [s2b "c"]; fldd (s2b "d") SLong (PInt 9); fld (s2b "b") SDouble].
-Definition ex_a := ARecord [AArray [AString [120]; AString [121; 121]]; AInt 3; AString [104; 195; 169]].
-Definition ex_out := PDict [(PStr (s2b "b"), PFloat 4613937818241073152); (PStr (s2b "c2"), PBytes [104; 195; 169]);
-                            (PStr (s2b "d"), PInt 9)].
-Lemma example_agree :
-  typedn 3 [(s2b "R", ex_w)] ex_w ex_a /\
-  wire ex_a = [4; 2; 120; 4; 121; 121; 0; 6; 6; 104; 195; 169] /\
-  rdec 5 [(s2b "R", ex_w)] [(s2b "ns.R", ex_r)] ropts0 ex_w (Some ex_r) (wire ex_a ++ [7; 7])%list = ROk (ex_out, [7; 7]) /\
-  resolve [(s2b "R", ex_w)] [(s2b "ns.R", ex_r)] ex_w ex_r ex_a = ROk ex_out.
-Proof. split; [typed_tac|split; [|split]; vm_compute; reflexivity]. Qed.
-
-(** the example pair lies inside the agreement zone; the inline witnesses above lie outside *)
-Lemma example_in_zone : inline ex_w = true /\ inline ex_r = true /\ agree [(s2b "R", ex_w)] [(s2b "ns.R", ex_r)] ex_w ex_r = true.
-Proof. repeat split; vm_compute; reflexivity. Qed.
-
-Lemma witnesses_outside_zone :
-  agree [] [] SBytes f6_r = false /\
-  agree [(s2b "R", g2_w)] [(s2b "R", g2_r)] g2_w g2_r = false /\
-  agree [(s2b "F", F4)] [(s2b "F", g2b_r)] F4 g2b_r = false /\
-  agree [(s2b "R", g3_w)] [(s2b "R", g3_r)] g3_w g3_r = false /\
-  agree [] [] SInt SFloat = false /\
-  agree g5_e g5_e g5_u g5_u = false /\
-  inline f7_w = false /\ inline g1_w = false /\ inline g6_w = false.
-Proof. repeat split; vm_compute; reflexivity. Qed.
